@@ -107,7 +107,7 @@ def gen_graph(rng, small):
         ths.append(["X"])                                  # racing with everything
     elif mode == 1:
         t = rng.below(len(ths))
-        ths[t].insert(rng.below(len(ths[t]) + 1), "X")     # in the middle of a submitter
+        ths[t].insert(1 + rng.below(len(ths[t])), "X")      # after at least one submission of that thread
     else:
         ths.append(["J", "X"])
     gcap = bit_ceil(2 * ntasks + nw + nwake + 1)
@@ -142,12 +142,33 @@ def main(argv):
     built = {}
 
     def build():
-        built["impl"] = chk.build_cpp("c07_executor",
-                                      [os.path.join(VERIF, "harness/conc/c07_executor.cpp"),
-                                       os.path.join(REPO, "src/babylon/executor.cpp"),
-                                       os.path.join(REPO, "src/babylon/basic_executor.cpp"),
-                                       os.path.join(VERIF, "harness/shim/dsched.cpp")],
-                                      flags=["-fno-access-control", "-include", "shim/prelude.h"], ldflags=["-ldl"])
+        # the four translation units are compiled in parallel and incrementally (object + .d file per unit)
+        d = os.path.join(vlib.BUILD, "c07obj")
+        os.makedirs(d, exist_ok=True)
+        srcs = [os.path.join(VERIF, "harness/conc/c07_executor.cpp"), os.path.join(REPO, "src/babylon/executor.cpp"),
+                os.path.join(REPO, "src/babylon/basic_executor.cpp"), os.path.join(VERIF, "harness/shim/dsched.cpp")]
+        objs, errs = [], []
+
+        def cc(src, obj):
+            cmd = [vlib.CXX] + vlib.CXXFLAGS + ["-I" + os.path.join(VERIF, "harness"), "-fno-access-control", "-include",
+                                                "shim/prelude.h", "-MMD", "-c", src, "-o", obj]
+            rc, out, err = vlib.sh(cmd, timeout=900)
+            if rc != 0:
+                errs.append(err[-3000:])
+        ths = []
+        for src in srcs:
+            obj = os.path.join(d, os.path.basename(src).replace(".cpp", ".o"))
+            objs.append(obj)
+            if Check._stale(obj, src) or os.path.getmtime(os.path.join(VERIF, "harness/shim/prelude.h")) > os.path.getmtime(obj):
+                th = threading.Thread(target=cc, args=(src, obj))
+                th.start()
+                ths.append(th)
+        for th in ths:
+            th.join()
+        if errs:
+            chk.broke("harness", "compile c07_executor", errs[0])
+            return
+        built["impl"] = chk.build_cpp("c07_executor", [], objs=objs, ldflags=["-ldl"])
     bt = threading.Thread(target=build)
     bt.start()
     chk.coq("Properties_C07.v")
